@@ -103,10 +103,12 @@ def build_info(case, side):
     bits = case["bits"] if side == "src" else case["dbits"]
     scales = []
     for i, s in enumerate(case["scales"]):
+        blk = case["block"] if side == "src" else case.get(
+            "dblock", case["block"])
+        # (the block size is a per-scale field: rotate it from scale to scale)
+        blk = list(blk[i % 3:]) + list(blk[:i % 3])
         scales.append(ds.make_scale(
-            "s%d" % i, s["size"], s["chunk"], enc,
-            block=case["block"] if side == "src" else case.get(
-                "dblock", case["block"]),
+            "s%d" % i, s["size"], s["chunk"], enc, block=blk,
             sharding=ds.sharding_dict(bits[0], bits[1], bits[2],
                                       case["shard_enc"], case["shard_enc"])
             if sharded else None))
@@ -222,6 +224,28 @@ def check_case(ctx, case):
                                dtype=ddt)
                 if not np.array_equal(chk, want.reshape(-1)[:8]):
                     raise AssertionError("harness: conversion is not exact")
+                if sc_["encoding"] == "compressed_segmentation" and \
+                        "sharding" not in sc_ and want.size <= 20000:
+                    # the destination files themselves, decoded from the
+                    # format description with the block size of THIS scale
+                    from vlib.refs import cseg_spec
+                    bs = sc_["compressed_segmentation_block_size"]
+                    for cc in ds.chunk_coords_list(sc_["size"],
+                                                   sc_["chunk_sizes"][0]):
+                        x0, x1, y0, y1, z0, z1 = cc
+                        w = want[:, z0:z1, y0:y1, x0:x1]
+                        try:
+                            ref = cseg_spec.decode(bytes(
+                                pio2.accessor.fetch_chunk(sc_["key"], cc)),
+                                w.shape, bs, w.dtype)
+                            okc = np.array_equal(ref, w)
+                        except Exception:       # noqa
+                            okc = False
+                        if not okc:
+                            ctx.fail("destination chunk %s of scale %d does "
+                                     "not decode to the source voxels with "
+                                     "the block size %s its info announces "
+                                     "(%s)" % (cc, i, bs, describe(case)))
                 if got.shape != want.shape or got.tobytes() != want.tobytes():
                     bad = np.argwhere(got != want)
                     ctx.fail("scale %d of the destination differs from the source"
